@@ -99,7 +99,9 @@ std::string propPeriodic(const FmmCase& c, const std::string& prop){
     ctx.currentTaskFn = &currentTask;
 #endif
     const long lastWorkingLevel = TbfDefaultLastLevelPeriodic;
+    if(RT == 1 && c.threadsCtor > 0) S.reset(c.threadsCtor, c.sched);
     Algo algorithm(config, Kernel(&ctx), lastWorkingLevel);
+    S.reset(c.threads, c.sched);
     TopAlgo topAlgorithm(config, Kernel(&ctxTop), long(c.extraLevels));
 
     // the documented sequence
